@@ -6,12 +6,18 @@
    The model follows /repo after the repairs bb6b0bd (hasPart indexes the window by position:
    former findings F3a, F3b), da34093 (_HLS_msn without _HLS_part waits for the complete segment:
    F11), def6988 (filterOutHLSParams on the lenient parse: F9), e317305 (404 when the hinted part
-   was evicted: F12); every theorem is stated at full strength, there is no _partial / _refuted. *)
+   was evicted: F12); every theorem is stated at full strength, there is no _partial / _refuted.
+
+   Refinement (last section): the abstract stream state is the abstraction [MuxConcRefine.A_mux] of the
+   muxer model Model/Mux.v (the model of C01-C05, tied to the real Muxer by the trace comparison), and
+   the three writer operations commute with it on the streams the handlers read - in every state
+   reachable from Start in which the streams are open (c06_writer_*_refines_muxer_model). *)
 From Coq Require Import List ZArith Bool String.
 From GoHls Require Import Lib.MuxSched Model.MuxConcSeq Model.MuxConcSpec Model.MuxConcPar
   Proofs.MuxConcSeqA Proofs.MuxConcSeqB Proofs.MuxConcSeqC
   Proofs.MuxConcInvA Proofs.MuxConcInvB Proofs.MuxConcInvC Proofs.MuxConcInvD
   Proofs.MuxConcProg Proofs.MuxConcMain Tie.MuxConcTie Proofs.MuxConcTieRun.
+From GoHls Require Model.Mux Proofs.MuxLogStep Proofs.MuxConcRefine.
 Import ListNotations.
 Local Open Scope Z_scope.
 
@@ -294,3 +300,38 @@ Theorem c06_tie_schedules : forall items c,
   exists sched, fold_left sitem_run items c = crun c sched.
 Proof. exact tie_schedule_is_schedule. Qed.
 Print Assumptions c06_tie_schedules.
+
+(* ---------------- the writer of this model is the muxer model of C01-C05, abstracted ---------------- *)
+(* [A_mux m t fs]: variant, SegmentCount, index of the leading stream and, per stream, next segment id, next
+   part id, window (ids, listed part ids, durations; gaps), open segment's part ids, delete count, target
+   duration - read off the muxer-model state m; path table and file set arbitrary *)
+Theorem c06_writer_createFirst_refines_muxer_model : forall (m : Mux.mstate) d ntp t fs,
+  option_map m_streams (apply_wop (MuxConcRefine.A_mux m t fs) WCreateFirst)
+  = Some (m_streams (MuxConcRefine.A_mux (Mux.createFirstSegment m d ntp) t fs)).
+Proof. exact MuxConcRefine.wop_createFirst_refines. Qed.
+Print Assumptions c06_writer_createFirst_refines_muxer_model.
+
+Theorem c06_writer_rotateParts_refines_muxer_model : forall c ops (m : Mux.mstate) d t fs,
+  MuxConcRefine.reachable c ops m -> MuxConcRefine.started m -> Mux.c_variant (Mux.m_cfg m) <> Mux.MPEGTS ->
+  option_map m_streams (apply_wop (MuxConcRefine.A_mux m t fs) WRotateParts)
+  = Some (m_streams (MuxConcRefine.A_mux (Mux.rotateParts m d) t fs)).
+Proof. exact MuxConcRefine.wop_rotateParts_refines. Qed.
+Print Assumptions c06_writer_rotateParts_refines_muxer_model.
+
+Theorem c06_writer_rotateSegments_refines_muxer_model : forall c ops (m : Mux.mstate) d ntp f t fs,
+  MuxConcRefine.reachable c ops m -> MuxConcRefine.started m ->
+  exists dur, option_map m_streams (apply_wop (MuxConcRefine.A_mux m t fs) (WRotateSegments dur))
+              = Some (m_streams (MuxConcRefine.A_mux (Mux.rotateSegments m d ntp f) t fs)).
+Proof. exact MuxConcRefine.wop_rotateSegments_refines. Qed.
+Print Assumptions c06_writer_rotateSegments_refines_muxer_model.
+
+Theorem c06_hasContent_commutes : forall v (s : Mux.stream),
+  hasContent (MuxConcRefine.av v) (MuxConcRefine.abs_stream v s) = Mux.hasContent v s.
+Proof. exact MuxConcRefine.abs_hasContent. Qed.
+Print Assumptions c06_hasContent_commutes.
+
+Theorem c06_refinement_nonvacuous : exists m : Mux.mstate,
+  MuxConcRefine.reachable MuxLogStep.ex_cfg MuxLogStep.ex_ops m /\ MuxConcRefine.started m
+  /\ Mux.c_variant (Mux.m_cfg m) <> Mux.MPEGTS /\ List.length (Mux.m_streams m) = 2%nat.
+Proof. exact MuxConcRefine.refine_example. Qed.
+Print Assumptions c06_refinement_nonvacuous.
